@@ -917,11 +917,19 @@ func (d *Dict) Truth() Bool                                     { return d.Len()
 func (d *Dict) Hash() (uint32, error)                           { return 0, fmt.Errorf("unhashable type: dict") }
 
 func (x *Dict) Union(y *Dict) *Dict {
+	z, _ := x.union(y)
+	return z
+}
+
+// union is like Union but also reports the error, if any, of comparing
+// a key of y with an equal-hash key of x (e.g. an excessively recursive
+// tuple); in that case z lacks the entries of y from the failed key on.
+func (x *Dict) union(y *Dict) (*Dict, error) {
 	z := new(Dict)
 	z.ht.init(x.Len()) // a lower bound
 	z.ht.addAll(&x.ht) // can't fail
-	z.ht.addAll(&y.ht) // can't fail
-	return z
+	err := z.ht.addAll(&y.ht)
+	return z, err
 }
 
 func (d *Dict) Attr(name string) (Value, error) { return builtinAttr(d, name, dictMethods) }
